@@ -27,6 +27,9 @@ pub struct Case {
     /// a second upper bound written with the other keyword
     #[serde(default)]
     pub hi2: Option<i64>,
+    /// every bound (not multipleOf) is multiplied by 10^big: magnitudes up to and beyond 2^63
+    #[serde(default)]
+    pub big: u8,
 }
 
 pub struct C08;
@@ -56,8 +59,18 @@ pub fn dec_text(v: i128, scale_digits: u32) -> String {
     s
 }
 
-fn bound_text(v: i64) -> String {
-    dec_text(v as i128, 3)
+fn bound_text(v: i128) -> String {
+    dec_text(v, 3)
+}
+
+/// 10^big
+fn sc(c: &Case) -> i128 {
+    10i128.pow(c.big as u32)
+}
+
+/// |bound| >= 2^63 for some bound: the engine converts integer bounds to i64
+fn beyond_i64(c: &Case) -> bool {
+    lows(c).iter().chain(highs(c).iter()).any(|(v, _)| v.unsigned_abs() / 1000 >= 1u128 << 63)
 }
 
 /// does the schema text survive the trip through f64 (the engine reads bounds as f64)
@@ -74,35 +87,35 @@ fn roundtrips(txt: &str) -> bool {
 pub fn schema(c: &Case) -> Option<serde_json::Value> {
     let mut parts = vec![format!("\"type\":\"{}\"", if c.integer { "integer" } else { "number" })];
     if let Some((v, ex)) = c.lo {
-        let t = bound_text(v);
+        let t = bound_text(v as i128 * sc(c));
         if !roundtrips(&t) {
             return None;
         }
         parts.push(format!("\"{}\":{}", if ex { "exclusiveMinimum" } else { "minimum" }, t));
     }
     if let Some((v, ex)) = c.hi {
-        let t = bound_text(v);
+        let t = bound_text(v as i128 * sc(c));
         if !roundtrips(&t) {
             return None;
         }
         parts.push(format!("\"{}\":{}", if ex { "exclusiveMaximum" } else { "maximum" }, t));
     }
     if let (Some((_, ex)), Some(v2)) = (c.lo, c.lo2) {
-        let t = bound_text(v2);
+        let t = bound_text(v2 as i128 * sc(c));
         if !roundtrips(&t) {
             return None;
         }
         parts.push(format!("\"{}\":{}", if ex { "minimum" } else { "exclusiveMinimum" }, t));
     }
     if let (Some((_, ex)), Some(v2)) = (c.hi, c.hi2) {
-        let t = bound_text(v2);
+        let t = bound_text(v2 as i128 * sc(c));
         if !roundtrips(&t) {
             return None;
         }
         parts.push(format!("\"{}\":{}", if ex { "maximum" } else { "exclusiveMaximum" }, t));
     }
     if let Some(m) = c.mult {
-        let t = bound_text(m);
+        let t = bound_text(m as i128);
         if !roundtrips(&t) || m <= 0 {
             return None;
         }
@@ -112,22 +125,22 @@ pub fn schema(c: &Case) -> Option<serde_json::Value> {
 }
 
 /// all lower / upper bounds of the case as (value scaled 10^3, exclusive)
-fn lows(c: &Case) -> Vec<(i64, bool)> {
+fn lows(c: &Case) -> Vec<(i128, bool)> {
     let mut v = vec![];
     if let Some((l, ex)) = c.lo {
-        v.push((l, ex));
+        v.push((l as i128 * sc(c), ex));
         if let Some(l2) = c.lo2 {
-            v.push((l2, !ex));
+            v.push((l2 as i128 * sc(c), !ex));
         }
     }
     v
 }
-fn highs(c: &Case) -> Vec<(i64, bool)> {
+fn highs(c: &Case) -> Vec<(i128, bool)> {
     let mut v = vec![];
     if let Some((h, ex)) = c.hi {
-        v.push((h, ex));
+        v.push((h as i128 * sc(c), ex));
         if let Some(h2) = c.hi2 {
-            v.push((h2, !ex));
+            v.push((h2 as i128 * sc(c), !ex));
         }
     }
     v
@@ -136,13 +149,13 @@ fn highs(c: &Case) -> Vec<(i64, bool)> {
 /// reference: is the value (scaled 10^6) admitted
 pub fn admits(c: &Case, v6: i128) -> bool {
     for (lo, ex) in lows(c) {
-        let l = lo as i128 * S3;
+        let l = lo * S3;
         if v6 < l || (ex && v6 == l) {
             return false;
         }
     }
     for (hi, ex) in highs(c) {
-        let h = hi as i128 * S3;
+        let h = hi * S3;
         if v6 > h || (ex && v6 == h) {
             return false;
         }
@@ -151,18 +164,6 @@ pub fn admits(c: &Case, v6: i128) -> bool {
 }
 
 fn admits_rest(c: &Case, v6: i128) -> bool {
-    if let Some((lo, ex)) = c.lo {
-        let l = lo as i128 * S3;
-        if v6 < l || (ex && v6 == l) {
-            return false;
-        }
-    }
-    if let Some((hi, ex)) = c.hi {
-        let h = hi as i128 * S3;
-        if v6 > h || (ex && v6 == h) {
-            return false;
-        }
-    }
     if let Some(m) = c.mult {
         if v6 % (m as i128 * S3) != 0 {
             return false;
@@ -185,8 +186,8 @@ pub fn satisfiable(c: &Case) -> bool {
         let g = gcd(step, S6);
         step = step / g * S6;
     }
-    let lo = lows(c).iter().map(|(v, ex)| *v as i128 * S3 + if *ex { 1 } else { 0 }).max();
-    let hi = highs(c).iter().map(|(v, ex)| *v as i128 * S3 - if *ex { 1 } else { 0 }).min();
+    let lo = lows(c).iter().map(|(v, ex)| *v * S3 + if *ex { 1 } else { 0 }).max();
+    let hi = highs(c).iter().map(|(v, ex)| *v * S3 - if *ex { 1 } else { 0 }).min();
     match (lo, hi) {
         (Some(l), Some(h)) => {
             if l > h {
@@ -230,8 +231,8 @@ fn spellings(v6: i128) -> Vec<(String, bool)> {
 /// candidate values (scaled 10^6) in and around the interval
 pub fn candidates(c: &Case) -> Vec<i128> {
     let mut s: BTreeSet<i128> = BTreeSet::new();
-    let lo6 = c.lo.map(|(v, _)| v as i128 * S3);
-    let hi6 = c.hi.map(|(v, _)| v as i128 * S3);
+    let lo6 = c.lo.map(|(v, _)| v as i128 * S3 * sc(c));
+    let hi6 = c.hi.map(|(v, _)| v as i128 * S3 * sc(c));
     let around = |b: i128, s: &mut BTreeSet<i128>| {
         s.insert(b);
         for k in 0..=6u32 {
@@ -255,7 +256,17 @@ pub fn candidates(c: &Case) -> Vec<i128> {
         around(h, &mut s);
     }
     for x in [c.lo2, c.hi2].into_iter().flatten() {
-        around(x as i128 * S3, &mut s);
+        around(x as i128 * S3 * sc(c), &mut s);
+    }
+    if c.big > 0 {
+        // where a conversion of the bounds to i64 / u64 / f64-exact integers would saturate or round
+        for b in [1i128 << 63, 1i128 << 64, 1i128 << 53] {
+            for d in [-1i128, 0, 1] {
+                s.insert((b + d) * S6);
+                s.insert(-(b + d) * S6);
+            }
+            s.insert(b * S6 + 500_000);
+        }
     }
     if let (Some(l), Some(h)) = (lo6, hi6) {
         let span = h - l;
@@ -305,6 +316,19 @@ pub fn run_case(c: &Case, ctx: &mut Ctx) -> R {
             return Ok(());
         }
     };
+    // a bound of magnitude >= 2^63 gets its own signatures (the engine keeps integer bounds in i64)
+    let beyond = beyond_i64(c);
+    // ... and so does a bound with 19 digits (10^18 <= |b| < 2^63): the integer-range regex builder computes 10^19-1 in i64
+    let d19 = !beyond && lows(c).iter().chain(highs(c).iter()).any(|(v, _)| v.unsigned_abs() / 1000 >= 1_000_000_000_000_000_000);
+    let k = |key: &str| -> String {
+        if beyond {
+            format!("{}@bound-beyond-i64", key)
+        } else if d19 {
+            format!("{}@19-digit-bound", key)
+        } else {
+            key.to_string()
+        }
+    };
     let v = byte_vocab();
     let f = factory(&v);
     let g = GrammarSpec::Json(sch.clone());
@@ -317,13 +341,13 @@ pub fn run_case(c: &Case, ctx: &mut Ctx) -> R {
             return Ok(());
         }
         if sat {
-            return ctx.fail("C08/satisfiable-schema-rejected", || format!("schema {} has satisfying values but does not compile: {}", sch, short_err(&e)));
+            return ctx.fail(&k("C08/satisfiable-schema-rejected"), || format!("schema {} has satisfying values but does not compile: {}", sch, short_err(&e)));
         }
         ctx.class("unsatisfiable_rejected");
         return Ok(());
     }
     if !sat {
-        return ctx.fail("C08/unsatisfiable-schema-compiles", || format!("schema {} has no satisfying value but compiles", sch));
+        return ctx.fail(&k("C08/unsatisfiable-schema-compiles"), || format!("schema {} has no satisfying value but compiles", sch));
     }
     ctx.class(if c.integer { "integer_schema" } else { "number_schema" });
     let eos = v.eos[0];
@@ -352,14 +376,14 @@ pub fn run_case(c: &Case, ctx: &mut Ctx) -> R {
             toks.push(eos);
             let n = match m0.clone().validate_tokens(&toks) {
                 Ok(n) => n,
-                Err(e) => return ctx.fail("C08/validate-error", || format!("schema {}: {}", sch, short_err(&e.to_string()))),
+                Err(e) => return ctx.fail(&k("C08/validate-error"), || format!("schema {}: {}", sch, short_err(&e.to_string()))),
             };
             ctx.eval(1);
             sp.push((txt, n == toks.len()));
         }
         if !inside {
             if let Some((txt, _)) = sp.iter().find(|(_, a)| *a) {
-                ctx.fail("C08/literal-outside-bounds-accepted", || format!("schema {}: literal {} is accepted but its value violates the bounds", sch, txt))?;
+                ctx.fail(&k("C08/literal-outside-bounds-accepted"), || format!("schema {}: literal {} is accepted but its value violates the bounds", sch, txt))?;
             }
             continue;
         }
@@ -367,7 +391,7 @@ pub fn run_case(c: &Case, ctx: &mut Ctx) -> R {
             if let Some((txt, _)) = sp.first() {
                 let dec_mult = c.mult.is_some_and(|m| m % 1000 != 0);
                 let key = if dec_mult { "C08/decimal-multipleOf-value-rejected-in-every-spelling" } else { "C08/value-inside-bounds-rejected-in-every-spelling" };
-                ctx.fail(key, || {
+                ctx.fail(&k(key), || {
                     format!("schema {}: value {} satisfies the bounds but is rejected in every spelling tried ({:?})", sch, txt, sp.iter().map(|x| x.0.as_str()).collect::<Vec<_>>())
                 })?;
             }
@@ -386,7 +410,7 @@ pub fn run_case(c: &Case, ctx: &mut Ctx) -> R {
                 (true, false) => "C08/short-fraction-spelling-rejected",
                 (false, _) => "C08/trailing-zero-literal-rejected",
             };
-            ctx.fail(key, || {
+            ctx.fail(&k(key), || {
                 format!("schema {}: literal {} is rejected although its value satisfies the bounds (accepted spellings of the same value: {:?})", sch, txt, sp.iter().filter(|x| x.1).map(|x| x.0.as_str()).collect::<Vec<_>>())
             })?;
         }
@@ -402,20 +426,20 @@ pub fn grid(tier: Tier) -> Vec<Case> {
     for lo in -w..=w {
         for hi in lo..=w {
             let pat = (lo + 2 * hi).rem_euclid(4);
-            v.push(Case { integer: true, lo: Some((lo * 1000, pat & 1 == 1)), hi: Some((hi * 1000, pat & 2 == 2)), mult: None, lo2: None, hi2: None });
+            v.push(Case { integer: true, lo: Some((lo * 1000, pat & 1 == 1)), hi: Some((hi * 1000, pat & 2 == 2)), mult: None, lo2: None, hi2: None, big: 0 });
         }
     }
     // (2) half-open and unbounded, integer and number
     for b in -w..=w {
         for ex in [false, true] {
-            v.push(Case { integer: true, lo: Some((b * 1000, ex)), hi: None, mult: None, lo2: None, hi2: None });
-            v.push(Case { integer: true, lo: None, hi: Some((b * 1000, ex)), mult: None, lo2: None, hi2: None });
-            v.push(Case { integer: false, lo: Some((b * 1000, ex)), hi: None, mult: None, lo2: None, hi2: None });
-            v.push(Case { integer: false, lo: None, hi: Some((b * 1000, ex)), mult: None, lo2: None, hi2: None });
+            v.push(Case { integer: true, lo: Some((b * 1000, ex)), hi: None, mult: None, lo2: None, hi2: None, big: 0 });
+            v.push(Case { integer: true, lo: None, hi: Some((b * 1000, ex)), mult: None, lo2: None, hi2: None, big: 0 });
+            v.push(Case { integer: false, lo: Some((b * 1000, ex)), hi: None, mult: None, lo2: None, hi2: None, big: 0 });
+            v.push(Case { integer: false, lo: None, hi: Some((b * 1000, ex)), mult: None, lo2: None, hi2: None, big: 0 });
         }
     }
-    v.push(Case { integer: true, lo: None, hi: None, mult: None, lo2: None, hi2: None });
-    v.push(Case { integer: false, lo: None, hi: None, mult: None, lo2: None, hi2: None });
+    v.push(Case { integer: true, lo: None, hi: None, mult: None, lo2: None, hi2: None, big: 0 });
+    v.push(Case { integer: false, lo: None, hi: None, mult: None, lo2: None, hi2: None, big: 0 });
     // (3) structured decimal bounds (scaled 10^3)
     let mut dec: Vec<i64> = vec![
         0, 1, 10, 100, 250, 500, 990, 999, 1000, 1001, 1010, 1100, 1250, 1500, 1990, 1999, 2000, 9000, 9900, 9990, 9999, 10000, 10001, 10010, 12340, 12345,
@@ -428,16 +452,16 @@ pub fn grid(tier: Tier) -> Vec<Case> {
     for (i, &lo) in dec.iter().enumerate() {
         for &hi in &dec[i..] {
             let pat = (lo / 10 + hi).rem_euclid(4);
-            v.push(Case { integer: false, lo: Some((lo, pat & 1 == 1)), hi: Some((hi, pat & 2 == 2)), mult: None, lo2: None, hi2: None });
+            v.push(Case { integer: false, lo: Some((lo, pat & 1 == 1)), hi: Some((hi, pat & 2 == 2)), mult: None, lo2: None, hi2: None, big: 0 });
             if (lo + hi) % 3 == 0 {
                 // integer schema with fractional bounds
-                v.push(Case { integer: true, lo: Some((lo, pat & 2 == 2)), hi: Some((hi, pat & 1 == 1)), mult: None, lo2: None, hi2: None });
+                v.push(Case { integer: true, lo: Some((lo, pat & 2 == 2)), hi: Some((hi, pat & 1 == 1)), mult: None, lo2: None, hi2: None, big: 0 });
             }
         }
         for ex in [false, true] {
-            v.push(Case { integer: false, lo: Some((lo, ex)), hi: None, mult: None, lo2: None, hi2: None });
-            v.push(Case { integer: false, lo: None, hi: Some((lo, ex)), mult: None, lo2: None, hi2: None });
-            v.push(Case { integer: true, lo: Some((lo, ex)), hi: None, mult: None, lo2: None, hi2: None });
+            v.push(Case { integer: false, lo: Some((lo, ex)), hi: None, mult: None, lo2: None, hi2: None, big: 0 });
+            v.push(Case { integer: false, lo: None, hi: Some((lo, ex)), mult: None, lo2: None, hi2: None, big: 0 });
+            v.push(Case { integer: true, lo: Some((lo, ex)), hi: None, mult: None, lo2: None, hi2: None, big: 0 });
         }
     }
     // (4) large magnitudes near powers of ten (integers only, below 2^53)
@@ -449,11 +473,27 @@ pub fn grid(tier: Tier) -> Vec<Case> {
                 continue;
             }
             for ex in [false, true] {
-                v.push(Case { integer: true, lo: Some((b * 1000, ex)), hi: None, mult: None, lo2: None, hi2: None });
-                v.push(Case { integer: true, lo: None, hi: Some((b * 1000, ex)), mult: None, lo2: None, hi2: None });
-                v.push(Case { integer: true, lo: Some((-b * 1000, ex)), hi: Some((b * 1000, !ex)), mult: None, lo2: None, hi2: None });
-                v.push(Case { integer: false, lo: Some(((b - 7) * 1000, ex)), hi: Some((b * 1000, ex)), mult: None, lo2: None, hi2: None });
-                v.push(Case { integer: true, lo: Some(((p / 10 - 1) * 1000, ex)), hi: Some((b * 1000, ex)), mult: None, lo2: None, hi2: None });
+                v.push(Case { integer: true, lo: Some((b * 1000, ex)), hi: None, mult: None, lo2: None, hi2: None, big: 0 });
+                v.push(Case { integer: true, lo: None, hi: Some((b * 1000, ex)), mult: None, lo2: None, hi2: None, big: 0 });
+                v.push(Case { integer: true, lo: Some((-b * 1000, ex)), hi: Some((b * 1000, !ex)), mult: None, lo2: None, hi2: None, big: 0 });
+                v.push(Case { integer: false, lo: Some(((b - 7) * 1000, ex)), hi: Some((b * 1000, ex)), mult: None, lo2: None, hi2: None, big: 0 });
+                v.push(Case { integer: true, lo: Some(((p / 10 - 1) * 1000, ex)), hi: Some((b * 1000, ex)), mult: None, lo2: None, hi2: None, big: 0 });
+            }
+        }
+    }
+    // (7) magnitudes up to and beyond 2^63: m * 10^big for big in 12..=22 (all exactly representable in f64)
+    for big in [12u8, 15, 16, 17, 18, 19, 20, 22] {
+        for m in [1i64, 2, 5, 9] {
+            for ex in [false, true] {
+                for integer in [true, false] {
+                    v.push(Case { integer, lo: Some((m * 1000, ex)), hi: None, mult: None, lo2: None, hi2: None, big });
+                    v.push(Case { integer, lo: None, hi: Some((m * 1000, ex)), mult: None, lo2: None, hi2: None, big });
+                    v.push(Case { integer, lo: Some((-m * 1000, ex)), hi: None, mult: None, lo2: None, hi2: None, big });
+                    v.push(Case { integer, lo: None, hi: Some((-m * 1000, ex)), mult: None, lo2: None, hi2: None, big });
+                    v.push(Case { integer, lo: Some((-m * 1000, ex)), hi: Some((m * 1000, !ex)), mult: None, lo2: None, hi2: None, big });
+                    v.push(Case { integer, lo: Some((m * 1000, ex)), hi: Some((m * 10000, ex)), mult: None, lo2: None, hi2: None, big });
+                    v.push(Case { integer, lo: Some((-m * 10000, ex)), hi: Some((-m * 1000, ex)), mult: None, lo2: None, hi2: None, big });
+                }
             }
         }
     }
@@ -463,14 +503,14 @@ pub fn grid(tier: Tier) -> Vec<Case> {
         for d in [-1000i64, -250, 0, 250, 1000] {
             for ex in [false, true] {
                 for integer in [false, true] {
-                    v.push(Case { integer, lo: Some(((b - 7) * 1000, false)), hi: Some((b * 1000, ex)), mult: None, lo2: None, hi2: Some(b * 1000 + d) });
-                    v.push(Case { integer, lo: Some((b * 1000, ex)), hi: Some(((b + 7) * 1000, false)), mult: None, lo2: Some(b * 1000 + d), hi2: None });
-                    v.push(Case { integer, lo: Some((b * 1000, ex)), hi: Some((b * 1000, !ex)), mult: None, lo2: Some(b * 1000), hi2: Some(b * 1000 + d.max(0)) });
+                    v.push(Case { integer, lo: Some(((b - 7) * 1000, false)), hi: Some((b * 1000, ex)), mult: None, lo2: None, hi2: Some(b * 1000 + d), big: 0 });
+                    v.push(Case { integer, lo: Some((b * 1000, ex)), hi: Some(((b + 7) * 1000, false)), mult: None, lo2: Some(b * 1000 + d), hi2: None, big: 0 });
+                    v.push(Case { integer, lo: Some((b * 1000, ex)), hi: Some((b * 1000, !ex)), mult: None, lo2: Some(b * 1000), hi2: Some(b * 1000 + d.max(0)), big: 0 });
                 }
             }
         }
-        v.push(Case { integer: false, lo: None, hi: Some((b * 1000 + 500, true)), mult: None, lo2: None, hi2: Some(b * 1000 + 500) });
-        v.push(Case { integer: false, lo: Some((b * 1000 + 500, false)), hi: None, mult: Some(500), lo2: Some(b * 1000 + 500), hi2: None });
+        v.push(Case { integer: false, lo: None, hi: Some((b * 1000 + 500, true)), mult: None, lo2: None, hi2: Some(b * 1000 + 500), big: 0 });
+        v.push(Case { integer: false, lo: Some((b * 1000 + 500, false)), hi: None, mult: Some(500), lo2: Some(b * 1000 + 500), hi2: None, big: 0 });
     }
     // (5) multipleOf crossed with windows
     let mults: [i64; 13] = [1000, 2000, 3000, 5000, 7000, 10000, 25000, 100000, 500, 100, 250, 10, 1500];
@@ -480,16 +520,16 @@ pub fn grid(tier: Tier) -> Vec<Case> {
             for span in [0i64, 1, 2, 3, 5, 8, 13, 30, 100] {
                 let hi = lo + span;
                 let pat = (lo + span).rem_euclid(4);
-                v.push(Case { integer: m % 1000 == 0 && pat != 3, lo: Some((lo * 1000, pat & 1 == 1)), hi: Some((hi * 1000, pat & 2 == 2)), mult: Some(m), lo2: None, hi2: None });
+                v.push(Case { integer: m % 1000 == 0 && pat != 3, lo: Some((lo * 1000, pat & 1 == 1)), hi: Some((hi * 1000, pat & 2 == 2)), mult: Some(m), lo2: None, hi2: None, big: 0 });
                 if m % 1000 != 0 {
-                    v.push(Case { integer: false, lo: Some((lo * 1000 + 250, pat & 1 == 1)), hi: Some((hi * 1000 + 750, pat & 2 == 2)), mult: Some(m), lo2: None, hi2: None });
+                    v.push(Case { integer: false, lo: Some((lo * 1000 + 250, pat & 1 == 1)), hi: Some((hi * 1000 + 750, pat & 2 == 2)), mult: Some(m), lo2: None, hi2: None, big: 0 });
                 }
             }
         }
-        v.push(Case { integer: false, lo: None, hi: None, mult: Some(m), lo2: None, hi2: None });
-        v.push(Case { integer: true, lo: None, hi: None, mult: Some(m), lo2: None, hi2: None });
-        v.push(Case { integer: false, lo: Some((-3500, false)), hi: None, mult: Some(m), lo2: None, hi2: None });
-        v.push(Case { integer: false, lo: None, hi: Some((7250, true)), mult: Some(m), lo2: None, hi2: None });
+        v.push(Case { integer: false, lo: None, hi: None, mult: Some(m), lo2: None, hi2: None, big: 0 });
+        v.push(Case { integer: true, lo: None, hi: None, mult: Some(m), lo2: None, hi2: None, big: 0 });
+        v.push(Case { integer: false, lo: Some((-3500, false)), hi: None, mult: Some(m), lo2: None, hi2: None, big: 0 });
+        v.push(Case { integer: false, lo: None, hi: Some((7250, true)), mult: Some(m), lo2: None, hi2: None, big: 0 });
     }
     v
 }
@@ -500,7 +540,8 @@ impl Prop for C08 {
     fn rule(&self) -> String {
         "grid: (1) every integer pair lo<=hi in [-W,W]^2 (quick W=120, thorough 400) with a rotating inclusive/exclusive pattern, (2) half-open and \
          unbounded schemas, (3) number and integer schemas over a structured set of decimal bounds (<= 3 fractional digits: around 0, +-1, equal \
-         integer parts, equal prefixes, trailing zeros, 9-runs), (4) bounds at 10^e-1, 10^e, 10^e+1 for e <= 15, (5) multipleOf in {1,2,3,5,7,10,25,\
+         integer parts, equal prefixes, trailing zeros, 9-runs), (4) bounds at 10^e-1, 10^e, 10^e+1 for e <= 15, (7) bounds m*10^e for m in {1,2,5,9}, e in {12,15..20,22} \
+         (up to and beyond 2^63; literals also around +-2^53, 2^63, 2^64), (5) multipleOf in {1,2,3,5,7,10,25,\
          100,0.5,0.1,0.25,0.01,1.5} crossed with windows; plus random bounds. Literals per schema: every integer in/around small windows, bound \
          +-10^-k (k<=6), digit-count neighbours, each re-spelt with 1-2 trailing zeros. evaluation = one literal verdict (validate_tokens(text+EOS)) \
          or one compile/satisfiability verdict against exact integer arithmetic; non-trivial = schema with a fractional bound, bounds of different \
@@ -525,7 +566,7 @@ impl Prop for C08 {
                 // quantise bounds to q thousandths
                 let lo = lo.map(|(v, e)| (v / q * q, e));
                 let hi = if has_hi { Some(((lo.map(|l| l.0).unwrap_or(-1000) + span) / q * q, exh)) } else { None };
-                Case { integer, lo, hi, mult, lo2: None, hi2: None }
+                Case { integer, lo, hi, mult, lo2: None, hi2: None, big: 0 }
             })
             .boxed()
     }
